@@ -16,6 +16,13 @@
 #include <shark/Models/Kernels/KernelExpansion.h>
 #include <shark/Models/Kernels/LinearKernel.h>
 #include <shark/Models/Kernels/GaussianRbfKernel.h>
+#include <shark/Models/DropoutLayer.h>
+#include <shark/Models/OneVersusOneClassifier.h>
+#include <shark/Models/Trees/CARTree.h>
+#include <shark/Models/Trees/RFClassifier.h>
+#include <shark/Models/Clustering/Centroids.h>
+#include <shark/Models/Clustering/HardClusteringModel.h>
+#include <shark/Models/Clustering/SoftClusteringModel.h>
 #include "common.hpp"
 #include <memory>
 using namespace shark;
@@ -45,8 +52,29 @@ static bool sameV(RealVector const& a, RealVector const& b){ if(a.size() != b.si
 // (finding F-C04-5: parameter-less layers leave the gradient untouched)
 static bool g_sizeProbe = true;
 // everything the property says about one model object, checked on the real code
+// `probe history 1`: every object is given a history before it is used (built with another structure, evaluated,
+// re-configured with setStructure; its State has recorded a different batch; copies / assignments are compared)
+static bool g_history = false;
+static bool g_kexpReconf = true;   // `probe kexp-reconf 0`: finding F-C04-6 present, KernelExpansion is not re-configured
+// copies and assigned objects evaluate like the original; for value-type models a copy does not share parameters
 template<class Model>
-std::string oracle(Model& model, RealMatrix const& X, RealMatrix const& C, RealVector const& p, bool exactSingle, bool withDeriv = true, bool inputDeriv = true, double ptol = 0.0, bool bufferProbe = true){
+std::string copyOracle(Model& model, RealMatrix const& X, RealMatrix const& out, RealVector const& p, bool valueCopy){
+	std::string bad;
+	Model cp(model);
+	{ RealMatrix oc; cp.eval(X, oc); if(!same(out, oc)) bad += " !oracle copy-evaluates-differently"; }
+	if(cp.numberOfParameters() != model.numberOfParameters()) bad += " !oracle copy-parameter-count";
+	if(valueCopy && p.size() != 0 && model.numberOfParameters() == p.size()){
+		RealVector p2 = p; for(std::size_t i = 0; i != p2.size(); ++i) p2(i) += 1.0;
+		cp.setParameterVector(p2);
+		RealMatrix o2; model.eval(X, o2);
+		if(!same(out, o2)) bad += " !oracle copy-shares-parameters";
+		cp = model;           // assignment over an object with other parameters
+		RealMatrix oa; cp.eval(X, oa); if(!same(out, oa)) bad += " !oracle assigned-evaluates-differently";
+	}
+	return bad;
+}
+template<class Model>
+std::string oracle(Model& model, RealMatrix const& X, RealMatrix const& C, RealVector const& p, bool exactSingle, bool withDeriv = true, bool inputDeriv = true, double ptol = 0.0, bool bufferProbe = true, bool valueCopy = true){
 	std::string bad;
 	if(model.numberOfParameters() != p.size()) bad += " !oracle number-of-parameters";
 	model.setParameterVector(p);
@@ -54,9 +82,13 @@ std::string oracle(Model& model, RealMatrix const& X, RealMatrix const& C, RealV
 	  for(std::size_t i = 0; ok && i != p.size(); ++i) if(!(std::fabs(q(i) - p(i)) <= ptol * (1 + std::fabs(p(i))))) ok = false;
 	  if(!ok) bad += " !oracle parameter-roundtrip"; }
 	RealMatrix out; model.eval(X, out);
+	if(out.size1() != X.size1()) bad += " !oracle output-rows";
 	boost::shared_ptr<State> st = model.createState();
+	// object history of the State: it has recorded another batch (one more row, shifted values) before
+	if(g_history){ RealMatrix Xo(X.size1() + 1, X.size2()); for(std::size_t i = 0; i != Xo.size1(); ++i) for(std::size_t j = 0; j != Xo.size2(); ++j) Xo(i,j) = (i < X.size1() ? X(i,j) : 0.0) + 0.5; RealMatrix oo; model.eval(Xo, oo, *st); }
 	RealMatrix outS; model.eval(X, outS, *st);
 	if(!same(out, outS)) bad += " !oracle state-changes-output";
+	bad += copyOracle(model, X, out, p, valueCopy);
 	for(std::size_t i = 0; i != X.size1(); ++i){
 		RealVector x = row(X, i), o;
 		model.eval(x, o);
@@ -125,6 +157,7 @@ std::string fdOracle(Model& model, RealMatrix const& X, RealMatrix const& C, Rea
 }
 
 typedef AbstractModel<RealVector,RealVector,RealVector> AnyModel;
+static RealVector toVec(std::vector<double> const& v);
 static AnyModel* makeDense(std::string const& act, std::size_t nIn, std::size_t nOut, bool hb){
 	if(act == "linear") return new LinearModel<RealVector, LinearNeuron>(nIn, nOut, hb);
 	if(act == "rectifier") return new LinearModel<RealVector, RectifierNeuron>(nIn, nOut, hb);
@@ -144,33 +177,58 @@ static AnyModel* makeNeuron(std::string const& act, std::size_t n){
 	return 0;
 }
 // chain B nIn | specs | params (ALL dense layers, optimised or not, in layer order) | X | C
-static std::string chain(std::size_t B, std::size_t nIn0, std::vector<std::string> const& specs, std::vector<double> const& p, std::vector<double> const& xs, std::vector<double> const& cs){
-	std::vector<std::unique_ptr<AnyModel> > layers; std::vector<bool> opt;
-	std::size_t nIn = nIn0, used = 0; bool kinky = false;
-	ConcatenatedModel<RealVector> m;
-	RealVector optParams;
-	for(std::string const& sp: specs){
-		std::vector<std::string> f; { std::string cur; for(char ch: sp){ if(ch == ':'){ f.push_back(cur); cur.clear(); } else cur += ch; } f.push_back(cur); }
-		if(f[0] == "d" && f.size() == 5){
-			bool hb = f[2] == "1"; std::size_t nOut = std::stoul(f[3]); bool o = f[4] == "1";
-			AnyModel* l = makeDense(f[1], nIn, nOut, hb); if(!l) return "bad-op";
-			std::size_t np = nOut*nIn + (hb ? nOut : 0);
-			if(used + np > p.size()) return "bad-op";
-			RealVector lp(np); for(std::size_t i = 0; i != np; ++i) lp(i) = p[used+i];
-			used += np; l->setParameterVector(lp);
-			if(o){ RealVector np2(optParams.size() + np); noalias(subrange(np2, 0, optParams.size())) = optParams; noalias(subrange(np2, optParams.size(), np2.size())) = lp; optParams = np2; }
-			layers.emplace_back(l); opt.push_back(o); nIn = nOut;
-			if(f[1] == "rectifier" || f[1] == "fastsigmoid") kinky = true;
-		}else if((f[0] == "n" || f[0] == "r") && f.size() == 3){
-			AnyModel* l = makeNeuron(f[1], nIn); if(!l) return "bad-op";
-			layers.emplace_back(l); opt.push_back(f[2] == "1");
-			if(f[1] == "rectifier" || f[1] == "fastsigmoid") kinky = true;
-		}else return "bad-op";
+//   a spec `[:<opt>` opens a nested ConcatenatedModel that is added to the enclosing one with that flag, `]` closes it
+struct ChainBuild{
+	std::vector<std::unique_ptr<AnyModel> > owned;
+	std::vector<double> const* p; std::size_t used; bool kinky; bool bad;
+	std::vector<double> optParams;
+	// fills `m` with the layers up to the matching `]` (or the end); returns the index after it
+	std::size_t seq(std::vector<std::string> const& specs, std::size_t i, bool top, bool enabled, std::size_t& nIn, ConcatenatedModel<RealVector>& m){
+		for(; i < specs.size(); ++i){
+			std::string const& sp = specs[i];
+			std::vector<std::string> f; { std::string cur; for(char ch: sp){ if(ch == ':'){ f.push_back(cur); cur.clear(); } else cur += ch; } f.push_back(cur); }
+			if(f[0] == "]" && f.size() == 1){ if(top) bad = true; return i + 1; }
+			if(f[0] == "[" && f.size() == 2){
+				bool o = f[1] == "1";
+				ConcatenatedModel<RealVector>* inner = new ConcatenatedModel<RealVector>();
+				owned.emplace_back(inner);
+				std::size_t after = seq(specs, i + 1, false, enabled && o, nIn, *inner);
+				if(bad || after < i + 3){ bad = true; return specs.size(); }      // an empty group has no input shape
+				i = after - 1;
+				m.add(inner, o);
+			}else if(f[0] == "d" && f.size() == 5){
+				bool hb = f[2] == "1"; std::size_t nOut = std::stoul(f[3]); bool o = f[4] == "1";
+				AnyModel* l = makeDense(f[1], nIn, nOut, hb); if(!l){ bad = true; return specs.size(); }
+				owned.emplace_back(l);
+				std::size_t np = nOut*nIn + (hb ? nOut : 0);
+				if(used + np > p->size()){ bad = true; return specs.size(); }
+				RealVector lp(np); for(std::size_t q = 0; q != np; ++q) lp(q) = (*p)[used+q];
+				l->setParameterVector(lp);
+				if(o && enabled) for(std::size_t q = 0; q != np; ++q) optParams.push_back((*p)[used+q]);
+				used += np;
+				m.add(l, o); nIn = nOut;
+				if(f[1] == "rectifier" || f[1] == "fastsigmoid") kinky = true;
+			}else if((f[0] == "n" || f[0] == "r") && f.size() == 3){
+				AnyModel* l = makeNeuron(f[1], nIn); if(!l){ bad = true; return specs.size(); }
+				owned.emplace_back(l);
+				m.add(l, f[2] == "1");
+				if(f[1] == "rectifier" || f[1] == "fastsigmoid") kinky = true;
+			}else{ bad = true; return specs.size(); }
+		}
+		if(!top) bad = true;      // unclosed group
+		return i;
 	}
-	if(used != p.size() || xs.size() != B*nIn0 || cs.size() != B*nIn) return "bad-op";
-	for(std::size_t i = 0; i != layers.size(); ++i) m.add(layers[i].get(), opt[i]);
+};
+static std::string chain(std::size_t B, std::size_t nIn0, std::vector<std::string> const& specs, std::vector<double> const& p, std::vector<double> const& xs, std::vector<double> const& cs){
+	ChainBuild b; b.p = &p; b.used = 0; b.kinky = false; b.bad = false;
+	ConcatenatedModel<RealVector> m;
+	std::size_t nIn = nIn0;
+	b.seq(specs, 0, true, true, nIn, m);
+	if(b.bad || b.used != p.size() || xs.size() != B*nIn0 || cs.size() != B*nIn) return "bad-op";
+	bool kinky = b.kinky;
+	RealVector optParams = toVec(b.optParams);
 	RealMatrix X = toMat(xs, B, nIn0), C = toMat(cs, B, nIn);
-	std::string orc = oracle(m, X, C, optParams, true);
+	std::string orc = oracle(m, X, C, optParams, true, true, true, 0.0, true, false);
 	if(!kinky) orc += fdOracle(m, X, C, optParams);
 	m.setParameterVector(optParams);
 	boost::shared_ptr<State> st = m.createState();
@@ -187,7 +245,8 @@ static std::string chain(std::size_t B, std::size_t nIn0, std::vector<std::strin
 
 template<class Act>
 std::string dense(bool hasB, std::size_t nIn, std::size_t nOut, std::size_t B, std::vector<double> const& p, std::vector<double> const& xs, std::vector<double> const& cs, bool exact){
-	LinearModel<RealVector, Act> m(nIn, nOut, hasB);
+	LinearModel<RealVector, Act> m(g_history ? nIn + 1 : nIn, g_history ? nOut + 2 : nOut, g_history ? !hasB : hasB);
+	if(g_history){ RealMatrix j(2, nIn + 1, 1.0), o; m.eval(j, o); m.setStructure(nIn, nOut, hasB); }
 	RealVector pv(p.size()); for(std::size_t i = 0; i != p.size(); ++i) pv(i) = p[i];
 	RealMatrix X = toMat(xs, B, nIn), C = toMat(cs, B, nOut);
 	std::string orc = oracle(m, X, C, pv, true);
@@ -210,7 +269,7 @@ std::string concat(bool h1, bool h2, std::size_t nIn, std::size_t nHid, std::siz
 	ConcatenatedModel<RealVector> m = f >> g;
 	RealVector pv(p.size()); for(std::size_t i = 0; i != p.size(); ++i) pv(i) = p[i];
 	RealMatrix X = toMat(xs, B, nIn), C = toMat(cs, B, nOut);
-	std::string orc = oracle(m, X, C, pv, true);
+	std::string orc = oracle(m, X, C, pv, true, true, true, 0.0, true, false);
 	m.setParameterVector(pv);
 	boost::shared_ptr<State> st = m.createState();
 	RealMatrix E; m.eval(X, E, *st);
@@ -260,7 +319,8 @@ static RealMatrix singles(Model& m, RealMatrix const& X, std::size_t nOut){
 }
 // normalizer hasB n B | params | X
 static std::string normalizerOp(bool hb, std::size_t n, std::size_t B, std::vector<double> const& p, std::vector<double> const& xs){
-	Normalizer<RealVector> m(n, hb);
+	Normalizer<RealVector> m(g_history ? n + 1 : n, g_history ? !hb : hb);
+	if(g_history){ RealMatrix j(2, n + 1, 1.0), o; RealVector jp(m.numberOfParameters(), 2.0); m.setParameterVector(jp); m.eval(j, o); m.setStructure(n, hb); }
 	RealVector pv = toVec(p); RealMatrix X = toMat(xs, B, n), C(B, n, 0.0);
 	std::string orc = oracle(m, X, C, pv, true, false);
 	m.setParameterVector(pv);
@@ -272,6 +332,7 @@ static std::string normalizerOp(bool hb, std::size_t n, std::size_t B, std::vect
 // classifier nIn nOut hasB hasBias B probe | params of the linear decision function | bias | X
 static std::string classifierOp(std::size_t nIn, std::size_t nOut, bool hb, bool hasBias, std::size_t B, bool probe, std::vector<double> const& p, std::vector<double> const& bias, std::vector<double> const& xs){
 	Classifier<LinearModel<RealVector> > c;
+	if(g_history){ c.decisionFunction().setStructure(nIn + 2, nOut + 1, !hb); RealMatrix j(3, nIn + 2, 1.0); blas::vector<unsigned int> o; c.eval(j, o); }
 	c.decisionFunction().setStructure(nIn, nOut, hb);
 	std::string bad;
 	RealVector pv = toVec(p);
@@ -302,7 +363,8 @@ static std::string classifierOp(std::size_t nIn, std::size_t nOut, bool hb, bool
 }
 // pool h w d ph pw B fd probe | X | C
 static std::string poolOp(std::size_t h, std::size_t w, std::size_t d, std::size_t ph, std::size_t pw, std::size_t B, std::vector<double> const& xs, std::vector<double> const& cs, bool distinct, bool probe){
-	PoolingLayer<RealVector> m(Shape({h, w, d}), Shape({ph, pw}));
+	PoolingLayer<RealVector> m(g_history ? Shape({h + 1, w + 2, d + 1}) : Shape({h, w, d}), g_history ? Shape({1, 1}) : Shape({ph, pw}));
+	if(g_history){ RealMatrix j(2, (h + 1)*(w + 2)*(d + 1), 1.0), o; m.eval(j, o); m.setStructure(Shape({h, w, d}), Shape({ph, pw})); }
 	std::size_t nIn = h*w*d, nOut = (h/ph)*(w/pw)*d;
 	if(xs.size() != B*nIn || cs.size() != B*nOut) return "bad-op";
 	RealMatrix X = toMat(xs, B, nIn), C = toMat(cs, B, nOut);
@@ -318,7 +380,8 @@ static std::string poolOp(std::size_t h, std::size_t w, std::size_t d, std::size
 }
 // resize h w d oh ow B | X | C
 static std::string resizeOp(std::size_t h, std::size_t w, std::size_t d, std::size_t oh, std::size_t ow, std::size_t B, std::vector<double> const& xs, std::vector<double> const& cs){
-	ResizeLayer<RealVector> m(Shape({h, w, d}), Shape({oh, ow}));
+	ResizeLayer<RealVector> m(g_history ? Shape({h + 1, w + 2, d + 1}) : Shape({h, w, d}), g_history ? Shape({ow + 1, oh}) : Shape({oh, ow}));
+	if(g_history){ RealMatrix j(2, (h + 1)*(w + 2)*(d + 1), 1.0), o; m.eval(j, o); m.setStructure(Shape({h, w, d}), Shape({oh, ow})); }
 	std::size_t nIn = h*w*d, nOut = oh*ow*d;
 	if(xs.size() != B*nIn || cs.size() != B*nOut) return "bad-op";
 	RealMatrix X = toMat(xs, B, nIn), C = toMat(cs, B, nOut);
@@ -335,7 +398,8 @@ static std::string resizeOp(std::size_t h, std::size_t w, std::size_t d, std::si
 // rbf nIn nOut trainCenters trainWidth B | centers | log gamma | X | C
 static std::string rbfOp(std::size_t nIn, std::size_t nOut, bool tc, bool tw, std::size_t B, std::vector<double> const& cen, std::vector<double> const& lg, std::vector<double> const& xs, std::vector<double> const& cs){
 	if(cen.size() != nIn*nOut || lg.size() != nOut || xs.size() != B*nIn || cs.size() != B*nOut) return "bad-op";
-	RBFLayer m(nIn, nOut);
+	RBFLayer m(g_history ? nIn + 1 : nIn, g_history ? nOut + 2 : nOut);
+	if(g_history){ RealVector jp(m.numberOfParameters(), 0.25); m.setParameterVector(jp); RealMatrix j(2, nIn + 1, 1.0), o; m.eval(j, o); m.setStructure(nIn, nOut); }
 	RealVector all(nIn*nOut + nOut);
 	for(std::size_t i = 0; i != cen.size(); ++i) all(i) = cen[i];
 	for(std::size_t i = 0; i != nOut; ++i) all(cen.size() + i) = lg[i];
@@ -362,7 +426,14 @@ static std::string kexpOp(std::string const& kern, double gamma, std::size_t nIn
 	std::vector<RealVector> pts(nBasis, RealVector(nIn));
 	for(std::size_t s = 0; s != nBasis; ++s) for(std::size_t j = 0; j != nIn; ++j) pts[s](j) = bs[s*nIn + j];
 	Data<RealVector> basis = createDataFromRange(pts, bb);
-	KernelExpansion<RealVector> m(k, basis, hb, nOut);
+	KernelExpansion<RealVector> m;
+	if(g_history && (g_kexpReconf || hb)){   // first another basis, the other offset setting, one more output
+		std::vector<RealVector> pts2(nBasis + 1, RealVector(nIn, 1.0));
+		m.setStructure(&lin, createDataFromRange(pts2), !hb, nOut + 1);
+		RealVector jp(m.numberOfParameters(), 2.0); m.setParameterVector(jp);
+		RealMatrix j(2, nIn, 1.0), o; m.eval(j, o);
+	}
+	m.setStructure(k, basis, hb, nOut);
 	RealVector pv = toVec(p); RealMatrix X = toMat(xs, B, nIn), C(B, nOut, 0.0);
 	std::string orc = oracle(m, X, C, pv, exact, false);
 	m.setParameterVector(pv);
@@ -410,7 +481,9 @@ static std::string ensembleOp(std::string const& kind, std::size_t M, std::size_
 }
 // cmac nIn nOut tilings tiles B | lower upper | params | X | C
 static std::string cmacOp(std::size_t nIn, std::size_t nOut, std::size_t tilings, std::size_t tiles, std::size_t B, double lower, double upper, std::vector<double> const& p, std::vector<double> const& xs, std::vector<double> const& cs){
-	CMACMap m; m.setStructure(Shape({nIn}), Shape({nOut}), tilings, tiles, lower, upper, false);
+	CMACMap m;
+	if(g_history){ m.setStructure(Shape({nIn + 1}), Shape({nOut + 1}), tilings + 1, tiles + 1, lower - 1, upper + 2, false); RealVector jp(m.numberOfParameters(), 1.0); m.setParameterVector(jp); RealMatrix j(2, nIn + 1, lower), o; m.eval(j, o); }
+	m.setStructure(Shape({nIn}), Shape({nOut}), tilings, tiles, lower, upper, false);
 	if(xs.size() != B*nIn || cs.size() != B*nOut) return "bad-op";
 	if(p.size() != m.numberOfParameters()){ std::ostringstream os; os << "NP=" << m.numberOfParameters() << " bad-parameter-count"; return os.str(); }
 	RealVector pv = toVec(p); RealMatrix X = toMat(xs, B, nIn), C = toMat(cs, B, nOut);
@@ -433,7 +506,9 @@ static std::string cmacOp(std::size_t nIn, std::size_t nOut, std::size_t tilings
 // conv <act> valid h w c nf fh fw B probe | params (filters [f][dy][dx][channel], then offsets) | X | C
 template<class Act>
 static std::string convOp(bool valid, std::size_t h, std::size_t w, std::size_t c, std::size_t nf, std::size_t fh, std::size_t fw, std::size_t B, std::vector<double> const& p, std::vector<double> const& xs, std::vector<double> const& cs, bool kinky, bool exact, bool probe){
-	Conv2DModel<RealVector, Act> m(Shape({h, w, c}), Shape({nf, fh, fw}), valid ? Padding::Valid : Padding::ZeroPad);
+	Conv2DModel<RealVector, Act> m;
+	if(g_history){ m.setStructure(Shape({h + fh + 2, w + fw + 1, c + 1}), Shape({nf + 1, fh + 1, fw}), valid ? Padding::ZeroPad : Padding::Valid); RealVector jp(m.numberOfParameters(), 1.0); m.setParameterVector(jp); RealMatrix j(2, (h + fh + 2)*(w + fw + 1)*(c + 1), 1.0), o; m.eval(j, o); }
+	m.setStructure(Shape({h, w, c}), Shape({nf, fh, fw}), valid ? Padding::Valid : Padding::ZeroPad);
 	std::size_t nIn = h*w*c, nOut = m.outputShape().numElements();
 	if(p.size() != m.numberOfParameters() || xs.size() != B*nIn || cs.size() != B*nOut) return "bad-op";
 	RealVector pv = toVec(p); RealMatrix X = toMat(xs, B, nIn), C = toMat(cs, B, nOut);
@@ -451,6 +526,205 @@ static std::string convOp(bool valid, std::size_t h, std::size_t w, std::size_t 
 	   << " GP=" << showVec(gp) << " GX=" << (probe ? showMat(gx) : std::string("-")) << orc;
 	return os.str();
 }
+// sparse <act> hasB nIn nOut B | params | X | C      LinearModel<CompressedRealVector, Act> against the dense model
+template<class Act>
+static std::string sparseOp(bool hb, std::size_t nIn, std::size_t nOut, std::size_t B, std::vector<double> const& p, std::vector<double> const& xs, std::vector<double> const& cs){
+	LinearModel<CompressedRealVector, Act> m(g_history ? nIn + 1 : nIn, g_history ? nOut + 1 : nOut, g_history ? !hb : hb);
+	if(g_history) m.setStructure(nIn, nOut, hb);
+	LinearModel<RealVector, Act> ref(nIn, nOut, hb);
+	RealVector pv = toVec(p); std::string bad;
+	if(m.numberOfParameters() != pv.size()) bad += " !oracle number-of-parameters";
+	m.setParameterVector(pv); ref.setParameterVector(pv);
+	if(!sameV(m.parameterVector(), pv)) bad += " !oracle parameter-roundtrip";
+	RealMatrix X = toMat(xs, B, nIn), C = toMat(cs, B, nOut);
+	CompressedRealMatrix Xs(B, nIn);
+	std::vector<CompressedRealVector> rows(B, CompressedRealVector(nIn));
+	for(std::size_t i = 0; i != B; ++i){ auto pos = rows[i].end(); for(std::size_t j = 0; j != nIn; ++j) if(X(i,j) != 0) pos = rows[i].set_element(rows[i].end(), j, X(i,j)); }
+	if(B) Xs = createBatch<CompressedRealVector>(rows);
+	RealMatrix E, ES, ER; m.eval(Xs, E);
+	boost::shared_ptr<State> st = m.createState(); m.eval(Xs, ES, *st);
+	if(!same(E, ES)) bad += " !oracle state-changes-output";
+	ref.eval(X, ER);
+	if(!same(E, ER)) bad += " !oracle sparse-differs-from-dense";
+	RealMatrix S(B, nOut);
+	for(std::size_t i = 0; i != B; ++i){
+		RealVector o; m.eval(rows[i], o); if(o.size() != nOut){ bad += " !oracle single-output-size"; break; }
+		noalias(row(S, i)) = o;
+		for(std::size_t k = 0; k != nOut; ++k) if(!(o(k) == E(i,k))){ bad += " !oracle batch-row-differs-from-single"; k = nOut - 1; i = B - 1; }
+	}
+	RealVector g, gr, g3(m.numberOfParameters(), 1.0);
+	m.weightedParameterDerivative(Xs, ES, C, *st, g); m.weightedParameterDerivative(Xs, ES, C, *st, g3);
+	if(!sameV(g, g3)) bad += " !oracle parameter-derivative-depends-on-previous-buffer-content";
+	{ boost::shared_ptr<State> sr = ref.createState(); RealMatrix o; ref.eval(X, o, *sr); ref.weightedParameterDerivative(X, o, C, *sr, gr); }
+	bool gok = g.size() == gr.size(); for(std::size_t q = 0; gok && q != g.size(); ++q) if(!(std::fabs(g(q) - gr(q)) <= 1e-12 * (1 + std::fabs(gr(q))))) gok = false;
+	if(!gok) bad += " !oracle sparse-gradient-differs-from-dense";
+	if(m.hasFirstInputDerivative()) bad += " !oracle sparse-advertises-input-derivative";
+	std::ostringstream os;
+	os << "NP=" << m.numberOfParameters() << " PV=" << showVec(m.parameterVector()) << " S=" << showMat(S) << " E=" << showMat(E) << " GP=" << showVec(g) << bad;
+	return os.str();
+}
+// kclass nIn nBasis nOut hasB B | basis | params | X        KernelClassifier over the linear kernel
+static std::string kclassOp(std::size_t nIn, std::size_t nBasis, std::size_t nOut, bool hb, std::size_t B, std::vector<double> const& bs, std::vector<double> const& p, std::vector<double> const& xs){
+	if(bs.size() != nBasis*nIn || xs.size() != B*nIn || p.size() != nBasis*nOut + (hb ? nOut : 0)) return "bad-op";
+	LinearKernel<RealVector> lin;
+	std::vector<RealVector> pts(nBasis, RealVector(nIn));
+	for(std::size_t q = 0; q != nBasis; ++q) for(std::size_t j = 0; j != nIn; ++j) pts[q](j) = bs[q*nIn + j];
+	KernelClassifier<RealVector> c(KernelExpansion<RealVector>(&lin, createDataFromRange(pts), hb, nOut));
+	std::string bad; RealVector pv = toVec(p);
+	if(c.numberOfParameters() != pv.size()) bad += " !oracle number-of-parameters";
+	c.setParameterVector(pv);
+	if(!sameV(c.parameterVector(), pv)) bad += " !oracle parameter-roundtrip";
+	RealMatrix X = toMat(xs, B, nIn);
+	blas::vector<unsigned int> R; c.eval(X, R);
+	{ boost::shared_ptr<State> st = c.createState(); blas::vector<unsigned int> RS; c.eval(X, RS, *st); bool ok = RS.size() == R.size(); for(std::size_t i = 0; ok && i != R.size(); ++i) ok = RS(i) == R(i); if(!ok) bad += " !oracle state-changes-output"; }
+	if(R.size() != B) bad += " !oracle output-rows";
+	for(std::size_t i = 0; i != B && i < R.size(); ++i){
+		RealVector x = row(X, i); unsigned int o = 77777u; c.eval(x, o); if(o != R(i)){ bad += " !oracle batch-row-differs-from-single"; break; }
+		RealMatrix X1(1, nIn); noalias(row(X1, 0)) = x; blas::vector<unsigned int> r1; c.eval(X1, r1); if(r1(0) != R(i)){ bad += " !oracle batch-composition-changes-row"; break; }
+	}
+	std::ostringstream os;
+	os << "NP=" << c.numberOfParameters() << " PV=" << showVec(c.parameterVector()) << " R=" << showLabels(R) << bad;
+	return os.str();
+}
+// ovo nIn classes B | params (per binary classifier: nIn weights, 1 offset) | X      OneVersusOneClassifier of thresholded linear classifiers
+static std::string ovoOp(std::size_t nIn, std::size_t classes, std::size_t B, std::vector<double> const& p, std::vector<double> const& xs){
+	std::size_t nb = classes * (classes - 1) / 2;
+	if(classes < 1 || p.size() != nb * (nIn + 1) || xs.size() != B*nIn) return "bad-op";
+	std::vector<std::unique_ptr<LinearClassifier<RealVector> > > bins;
+	for(std::size_t q = 0; q != nb; ++q){ bins.emplace_back(new LinearClassifier<RealVector>()); bins.back()->setStructure(nIn, 1, true); }
+	OneVersusOneClassifier<RealVector> m;
+	for(std::size_t c = 1, q = 0; c < classes; ++c){
+		std::vector<OneVersusOneClassifier<RealVector>::binary_classifier_type*> v;
+		for(std::size_t e = 0; e != c; ++e, ++q) v.push_back(bins[q].get());
+		m.addClass(v);
+	}
+	std::string bad; RealVector pv = toVec(p);
+	if(m.numberOfClasses() != classes) bad += " !oracle number-of-classes";
+	if(m.numberOfParameters() != pv.size()) bad += " !oracle number-of-parameters";
+	m.setParameterVector(pv);
+	if(!sameV(m.parameterVector(), pv)) bad += " !oracle parameter-roundtrip";
+	RealMatrix X = toMat(xs, B, nIn);
+	blas::vector<unsigned int> R; m.eval(X, R);
+	{ boost::shared_ptr<State> st = m.createState(); blas::vector<unsigned int> RS; m.eval(X, RS, *st); bool ok = RS.size() == R.size(); for(std::size_t i = 0; ok && i != R.size(); ++i) ok = RS(i) == R(i); if(!ok) bad += " !oracle state-changes-output"; }
+	if(R.size() != B) bad += " !oracle output-rows";
+	for(std::size_t i = 0; i != B && i < R.size(); ++i){
+		RealVector x = row(X, i); unsigned int o = 77777u; m.eval(x, o); if(o != R(i)){ bad += " !oracle batch-row-differs-from-single"; break; }
+		RealMatrix X1(1, nIn); noalias(row(X1, 0)) = x; blas::vector<unsigned int> r1; m.eval(X1, r1); if(r1(0) != R(i)){ bad += " !oracle batch-composition-changes-row"; break; }
+		// independent oracle: the winner has at least as many votes as every class, strictly more than every smaller class
+		std::vector<unsigned> votes(classes, 0);
+		for(std::size_t c = 1, q = 0; c < classes; ++c) for(std::size_t e = 0; e != c; ++e, ++q){ unsigned int lab; bins[q]->eval(x, lab); ++votes[lab == 0 ? e : c]; }
+		for(std::size_t c = 0; c != classes; ++c) if(votes[c] > votes[R(i)] || (c < R(i) && votes[c] == votes[R(i)])){ bad += " !oracle not-the-first-vote-maximum"; break; }
+	}
+	std::ostringstream os;
+	os << "NP=" << m.numberOfParameters() << " PV=" << showVec(m.parameterVector()) << " R=" << showLabels(R) << bad;
+	return os.str();
+}
+// tree build script: I:<node>:<attribute>:<threshold> (transformInternalNode), L:<node>:<label> (transformLeafNode)
+static bool buildTree(CARTree<unsigned int>& t, std::vector<std::string> const& script){
+	t.createRoot();
+	for(std::string const& sp: script){
+		std::vector<std::string> f; { std::string cur; for(char ch: sp){ if(ch == ':'){ f.push_back(cur); cur.clear(); } else cur += ch; } f.push_back(cur); }
+		if(f[0] == "I" && f.size() == 4){ double thr; if(!parseDy(f[3], thr) || std::stoul(f[1]) >= t.numberOfNodes()) return false; t.transformInternalNode(std::stoul(f[1]), std::stoul(f[2]), thr); }
+		else if(f[0] == "L" && f.size() == 3){ if(std::stoul(f[1]) >= t.numberOfNodes()) return false; t.transformLeafNode(std::stoul(f[1]), (unsigned int)std::stoul(f[2])); }
+		else return false;
+	}
+	return true;
+}
+template<class Model>
+static std::string labelOracle(Model& m, RealMatrix const& X, blas::vector<unsigned int> const& R){
+	std::string bad;
+	{ boost::shared_ptr<State> st = m.createState(); blas::vector<unsigned int> RS; m.eval(X, RS, *st); bool ok = RS.size() == R.size(); for(std::size_t i = 0; ok && i != R.size(); ++i) ok = RS(i) == R(i); if(!ok) bad += " !oracle state-changes-output"; }
+	if(R.size() != X.size1()) bad += " !oracle output-rows";
+	if(m.numberOfParameters() != 0 || m.parameterVector().size() != 0) bad += " !oracle number-of-parameters";
+	for(std::size_t i = 0; i != X.size1() && i < R.size(); ++i){
+		RealVector x = row(X, i); unsigned int o = 77777u; m.eval(x, o); if(o != R(i)){ bad += " !oracle batch-row-differs-from-single"; break; }
+		RealMatrix X1(1, X.size2()); noalias(row(X1, 0)) = x; blas::vector<unsigned int> r1; m.eval(X1, r1); if(r1(0) != R(i)){ bad += " !oracle batch-composition-changes-row"; break; }
+	}
+	Model cp(m); blas::vector<unsigned int> RC; cp.eval(X, RC); bool ok = RC.size() == R.size(); for(std::size_t i = 0; ok && i != R.size(); ++i) ok = RC(i) == R(i); if(!ok) bad += " !oracle copy-evaluates-differently";
+	return bad;
+}
+// cart nIn nCls B | script | X
+static std::string cartOp(std::size_t nIn, std::size_t nCls, std::size_t B, std::vector<std::string> const& script, std::vector<double> const& xs){
+	if(xs.size() != B*nIn) return "bad-op";
+	CARTree<unsigned int> t(nIn, Shape({nCls}));
+	if(!buildTree(t, script)) return "bad-op";
+	RealMatrix X = toMat(xs, B, nIn);
+	blas::vector<unsigned int> R; t.eval(X, R);
+	std::string bad = labelOracle(t, X, R);
+	std::ostringstream os; os << "NP=" << t.numberOfParameters() << " R=" << showLabels(R) << bad; return os.str();
+}
+// rf nIn nCls B | weights | script_1 | ... | script_M | X       RFClassifier<unsigned int> = weighted vote of CARTrees
+static std::string rfOp(std::size_t nIn, std::size_t nCls, std::size_t B, std::vector<double> const& ws, std::vector<std::vector<std::string> > const& scripts, std::vector<double> const& xs){
+	if(xs.size() != B*nIn || ws.size() != scripts.size() || ws.empty()) return "bad-op";
+	RFClassifier<unsigned int> rf;
+	for(std::size_t q = 0; q != ws.size(); ++q){ CARTree<unsigned int> t(nIn, Shape({nCls})); if(!buildTree(t, scripts[q])) return "bad-op"; rf.addModel(t, ws[q]); }
+	RealMatrix X = toMat(xs, B, nIn);
+	blas::vector<unsigned int> R; rf.eval(X, R);
+	RealMatrix V; rf.decisionFunction().eval(X, V);
+	std::string bad = labelOracle(rf, X, R);
+	std::ostringstream os; os << "NP=" << rf.numberOfParameters() << " V=" << showMat(V) << " R=" << showLabels(R) << bad; return os.str();
+}
+// cluster nIn nC B centroidBatch | centroids | X        Centroids with HardClusteringModel / SoftClusteringModel
+static std::string clusterOp(std::size_t nIn, std::size_t nC, std::size_t B, std::size_t cb, std::vector<double> const& cen, std::vector<double> const& xs){
+	if(cen.size() != nC*nIn || xs.size() != B*nIn || nC == 0) return "bad-op";
+	std::vector<RealVector> pts(nC, RealVector(nIn, 0.0));
+	Centroids c(createDataFromRange(pts, cb));
+	std::string bad; RealVector pv = toVec(cen);
+	if(c.numberOfParameters() != pv.size()) bad += " !oracle number-of-parameters";
+	c.setParameterVector(pv);
+	if(!sameV(c.parameterVector(), pv)) bad += " !oracle parameter-roundtrip";
+	SoftClusteringModel<RealVector> soft(&c); HardClusteringModel<RealVector> hard(&c);
+	if(soft.numberOfParameters() != pv.size() || hard.numberOfParameters() != pv.size() || !sameV(soft.parameterVector(), pv)) bad += " !oracle model-parameters-differ-from-clustering";
+	RealMatrix X = toMat(xs, B, nIn);
+	RealMatrix E; soft.eval(X, E);
+	blas::vector<unsigned int> R; hard.eval(X, R);
+	if(E.size1() != B || R.size() != B) bad += " !oracle output-rows";
+	RealMatrix S(B, nC);
+	for(std::size_t i = 0; i != B && bad.empty(); ++i){
+		RealVector x = row(X, i), o; soft.eval(x, o); if(o.size() != nC){ bad += " !oracle single-output-size"; break; }
+		noalias(row(S, i)) = o;
+		double sum = 0; for(std::size_t k = 0; k != nC; ++k){ sum += E(i,k); if(!(std::fabs(o(k) - E(i,k)) <= 1e-12 * (1 + std::fabs(o(k))))){ bad += " !oracle batch-row-differs-from-single"; break; } }
+		if(!(std::fabs(sum - 1) <= 1e-12)) bad += " !oracle memberships-do-not-sum-to-one";
+		unsigned int lab = 77777u; hard.eval(x, lab);
+		// the label is a cluster of maximal membership (the batch and the single path round differently: compare memberships, not indices)
+		if(lab >= nC || R(i) >= nC || !(std::fabs(E(i, lab) - E(i, R(i))) <= 1e-12)) bad += " !oracle hard-label-differs-from-single";
+		for(std::size_t k = 0; k != nC && R(i) < nC; ++k) if(E(i,k) > E(i,R(i))) bad += " !oracle hard-label-not-maximal";
+		RealMatrix X1(1, nIn); noalias(row(X1, 0)) = x; RealMatrix e1; soft.eval(X1, e1);
+		for(std::size_t k = 0; k != nC; ++k) if(!(e1(0,k) == E(i,k))){ bad += " !oracle batch-composition-changes-row"; break; }
+	}
+	std::ostringstream os;
+	os << "NP=" << soft.numberOfParameters() << " PV=" << showVec(soft.parameterVector()) << " TS=" << showMat(S) << " TE=" << showMat(E) << " R=" << showLabels(R) << bad;
+	return os.str();
+}
+// dropout p n B seed | X | C       random layer: oracle only (the driver answers with the same constant line)
+static std::string dropoutOp(double prob, std::size_t n, std::size_t B, unsigned seed, std::vector<double> const& xs, std::vector<double> const& cs){
+	if(xs.size() != B*n || cs.size() != B*n) return "bad-op";
+	random::rng_type rng(seed);
+	DropoutLayer<RealVector> m(Shape({n}), prob, rng);
+	RealMatrix X = toMat(xs, B, n), C = toMat(cs, B, n);
+	std::string bad;
+	if(m.numberOfParameters() != 0 || m.parameterVector().size() != 0) bad += " !oracle number-of-parameters";
+	boost::shared_ptr<State> st = m.createState();
+	RealMatrix E; rng.seed(seed); m.eval(X, E, *st);
+	RealMatrix E2; rng.seed(seed); m.eval(X, E2);                       // same draws, no state
+	if(!same(E, E2)) bad += " !oracle state-changes-output";
+	rng.seed(seed);                                                      // the rows one after the other consume the same draws
+	for(std::size_t i = 0; i != B; ++i){ RealVector x = row(X, i), o; m.eval(x, o); for(std::size_t k = 0; k != n; ++k) if(o.size() != n || !(o(k) == E(i,k))){ bad += " !oracle batch-row-differs-from-single"; i = B - 1; break; } }
+	RealMatrix D; m.weightedInputDerivative(X, E, C, *st, D);
+	RealVector g(3, 1.0); m.weightedParameterDerivative(X, E, C, *st, g); if(g.size() != 0) bad += " !oracle gradient-not-resized";
+	RealVector g2; RealMatrix D2; m.weightedDerivatives(X, E, C, *st, g2, D2); if(!same(D, D2) || g2.size() != 0) bad += " !oracle combined-derivative-differs-from-separate";
+	bool ok = E.size1() == B && E.size2() == n && D.size1() == B && D.size2() == n;
+	for(std::size_t i = 0; ok && i != B; ++i) for(std::size_t k = 0; k != n; ++k){
+		bool kept = E(i,k) == X(i,k), dropped = E(i,k) == 0;
+		if(!kept && !dropped){ ok = false; break; }
+		if(X(i,k) != 0 && !(D(i,k) == (kept ? C(i,k) : 0.0))){ ok = false; break; }       // the derivative of out = mask * x
+		if(X(i,k) == 0 && !(D(i,k) == C(i,k) || D(i,k) == 0)){ ok = false; break; }
+		if(prob >= 1.0 && !kept) ok = false;
+		if(prob <= 0.0 && !dropped) ok = false;
+	}
+	if(!ok) bad += " !oracle dropout-mask-inconsistent";
+	return "NP=0 DROPOUT" + bad;
+}
 static bool natsFrom(std::vector<std::string> const& t, std::size_t from, std::size_t count, std::vector<std::size_t>& d){ return t.size() == from + count && vh::allNat(t, from, d) && d.size() == count; }
 
 int main(){
@@ -458,7 +732,7 @@ int main(){
 	while(std::getline(std::cin, line)){
 		auto secs = sections(line);
 		if(secs.size() == 1 && secs[0].size() == 2 && secs[0][0] == "mode"){ floatMode = secs[0][1] == "float"; std::cout << "ok\n"; continue; }
-		if(secs.size() == 1 && secs[0].size() == 3 && secs[0][0] == "probe"){ if(secs[0][1] == "gradient-size") g_sizeProbe = secs[0][2] == "1"; std::cout << "ok\n"; continue; }
+		if(secs.size() == 1 && secs[0].size() == 3 && secs[0][0] == "probe"){ if(secs[0][1] == "gradient-size") g_sizeProbe = secs[0][2] == "1"; if(secs[0][1] == "history") g_history = secs[0][2] == "1"; if(secs[0][1] == "kexp-reconf") g_kexpReconf = secs[0][2] == "1"; std::cout << "ok\n"; continue; }
 		std::string out = "bad-op";
 		std::vector<double> p, xs, cs, q2; std::vector<std::size_t> d;
 		if(secs.size() == 4 && secs[0].size() == 6 && secs[0][0] == "dense" && vh::allNat(secs[0], 2, d) && d.size() == 4 && nums(secs[1], p) && nums(secs[2], xs) && nums(secs[3], cs)){
@@ -496,7 +770,7 @@ int main(){
 			out = ensembleOp(secs[0][1], d[0], d[1], d[2], d[3] == 1, d[4], q2, p, xs);
 		}else if(secs.size() == 4 && secs[0].size() == 11 && secs[0][0] == "conv" && vh::allNat(secs[0], 2, d) && d.size() == 9 && nums(secs[1], p) && nums(secs[2], xs) && nums(secs[3], cs)){
 			std::string act = secs[0][1];
-			if(d[1] >= d[5] && d[2] >= d[6] && d[5] >= 1 && d[6] >= 1 && d[3] >= 1 && d[4] >= 1){
+			if((d[0] != 1 || (d[1] >= d[5] && d[2] >= d[6])) && d[5] >= 1 && d[6] >= 1 && d[3] >= 1 && d[4] >= 1){      // Padding::Valid needs the filter inside the image
 				if(act == "linear") out = convOp<LinearNeuron>(d[0] == 1, d[1], d[2], d[3], d[4], d[5], d[6], d[7], p, xs, cs, false, true, d[8] == 1);
 				else if(act == "rectifier") out = convOp<RectifierNeuron>(d[0] == 1, d[1], d[2], d[3], d[4], d[5], d[6], d[7], p, xs, cs, true, true, d[8] == 1);
 				else if(act == "tanh") out = convOp<TanhNeuron>(d[0] == 1, d[1], d[2], d[3], d[4], d[5], d[6], d[7], p, xs, cs, false, false, d[8] == 1);
@@ -504,6 +778,25 @@ int main(){
 			}
 		}else if(secs.size() == 5 && secs[0][0] == "cmac" && natsFrom(secs[0], 1, 5, d) && nums(secs[1], q2) && q2.size() == 2 && nums(secs[2], p) && nums(secs[3], xs) && nums(secs[4], cs)){
 			if(d[3] >= 2 && d[2] >= 1) out = cmacOp(d[0], d[1], d[2], d[3], d[4], q2[0], q2[1], p, xs, cs);
+		}else if(secs.size() == 4 && secs[0].size() == 6 && secs[0][0] == "sparse" && vh::allNat(secs[0], 2, d) && d.size() == 4 && nums(secs[1], p) && nums(secs[2], xs) && nums(secs[3], cs)){
+			std::string act = secs[0][1]; bool hb = d[0] == 1;
+			if(p.size() == d[2]*d[1] + (hb ? d[2] : 0) && xs.size() == d[3]*d[1] && cs.size() == d[3]*d[2]){
+				if(act == "linear") out = sparseOp<LinearNeuron>(hb, d[1], d[2], d[3], p, xs, cs);
+				else if(act == "rectifier") out = sparseOp<RectifierNeuron>(hb, d[1], d[2], d[3], p, xs, cs);
+				else if(act == "tanh") out = sparseOp<TanhNeuron>(hb, d[1], d[2], d[3], p, xs, cs);
+			}
+		}else if(secs.size() == 4 && secs[0][0] == "kclass" && natsFrom(secs[0], 1, 5, d) && nums(secs[1], q2) && nums(secs[2], p) && nums(secs[3], xs)){
+			out = kclassOp(d[0], d[1], d[2], d[3] == 1, d[4], q2, p, xs);
+		}else if(secs.size() == 3 && secs[0][0] == "ovo" && natsFrom(secs[0], 1, 3, d) && nums(secs[1], p) && nums(secs[2], xs)){
+			out = ovoOp(d[0], d[1], d[2], p, xs);
+		}else if(secs.size() == 3 && secs[0][0] == "cart" && natsFrom(secs[0], 1, 3, d) && nums(secs[2], xs)){
+			out = cartOp(d[0], d[1], d[2], secs[1], xs);
+		}else if(secs.size() >= 4 && secs[0][0] == "rf" && natsFrom(secs[0], 1, 3, d) && nums(secs[1], q2) && nums(secs.back(), xs)){
+			out = rfOp(d[0], d[1], d[2], q2, std::vector<std::vector<std::string> >(secs.begin() + 2, secs.end() - 1), xs);
+		}else if(secs.size() == 3 && secs[0][0] == "cluster" && natsFrom(secs[0], 1, 4, d) && nums(secs[1], p) && nums(secs[2], xs)){
+			out = clusterOp(d[0], d[1], d[2], d[3], p, xs);
+		}else if(secs.size() == 3 && secs[0].size() == 5 && secs[0][0] == "dropout" && vh::allNat(secs[0], 2, d) && d.size() == 3 && nums(secs[1], xs) && nums(secs[2], cs)){
+			double prob; if(parseDy(secs[0][1], prob)) out = dropoutOp(prob, d[0], d[1], (unsigned)d[2], xs, cs);
 		}else if(secs.size() == 3 && secs[0].size() == 4 && secs[0][0] == "rowact" && nums(secs[1], xs) && nums(secs[2], cs)){
 			std::size_t n = std::stoul(secs[0][2]), B = std::stoul(secs[0][3]);
 			if(xs.size() == n*B && cs.size() == n*B){
